@@ -44,9 +44,9 @@ module Path = struct
       | ["one"; os; s] -> let os = os_of os in let s = str_of_tok s in
           (* second segment: what path/filepath must return (same functions: avfs claims equality) *)
           let r = one os s in
-          print_endline (if os = Linux then r ^ " || " ^ r else r)
+          print_endline (r ^ " || " ^ r)
       | ["two"; os; a; c] -> let os = os_of os in let a = str_of_tok a and c = str_of_tok c in
-          print_endline (if os = Linux then two os a c false ^ " || " ^ two os a c false else two os a c false)
+          let r = two os a c false in print_endline (r ^ " || " ^ r)
       | ["pi"; os; path; np] -> print_endline (pi (os_of os) (str_of_tok path) (str_of_tok np))
       | _ -> print_endline "BADLINE")
 end
